@@ -163,3 +163,15 @@ add("C20", "loader / map monitor on harness-written files with known layout "
     "File order = the order in which afmformats enumerates the file; pixel "
     "addressed by the 'grid index' metadata; overrides tested on JPK files "
     "(afmformats does not implement them for HDF5).")
+add("C07", "in-place wrappers on every registered preprocessing step snapshot "
+    "all columns before/after each real execution inside random valid "
+    "pipelines; per-step contract oracle (bitwise tip position, constant "
+    "offsets, affine slope correction without jump, single segment switch, "
+    "strict monotony, foreign columns byte-identical)",
+    "Held (apart from the listed known finding) on ~4800 step executions per "
+    "quick run over synthetic well-formed curves (4 models, noise, tilt, "
+    "drift, lagged turning point, height noise) and recorded curves, all "
+    "option values.",
+    "Well-formed class and tolerances as stated in the check's assumptions; "
+    "the estimated contact index is nanite's own compute_poc on the 'before' "
+    "force.")
